@@ -411,7 +411,9 @@ func outerCancel(s *simrt.Sim) {
 				writerAsked := false
 				graceOK := false
 				for _, w := range writers {
-					if w.inv != 0 {
+					// (a writer that had been granted before this reader was admitted has unlocked since — readers
+					// are not admitted while a writer waits or holds — and is no reason to cancel this reader)
+					if w.inv != 0 && !(w.granted != 0 && w.granted < r.granted) {
 						writerAsked = true
 						if !r.doneSeenAt.Before(w.invTime.Add(grace)) {
 							graceOK = true
